@@ -493,7 +493,8 @@ Definition reset_insertion_mode (s : ps) : ps :=
                       match inner s with None => true | Some _ => false end
                    then crashed (S' "resetInsertionMode: assert self.innerHTML") s else s in
           match lookup_str new_modes nm with
-               | Some p => set_ph (phase_of_name p) s
+               | Some p => if last && name_in nm ["td"; "th"] then set_ph inBodyP s      (* repaired in /repo *)
+                           else set_ph (phase_of_name p) s
                | None => if last then set_ph inBodyP s else go r s
                end
       end in
@@ -764,7 +765,8 @@ Section Handlers.
     | None => (end_tag_other n s, false)
     | Some fe =>
         let fe_open := mem_nat fe (opn s) in
-        if fe_open && negb (in_scope_str (ename (d s) fe) VDefault s) then (end_tag_other n s, false)
+        (* in the stack but not in scope (the element itself, not its name): ignored -- repaired in /repo *)
+        if fe_open && negb (node_in_scope fe s) then (s, false)
         else if negb fe_open then (set_afe (remove_opt fe (afe s)) s, false)
         else
           match index_of fe (opn s) with
@@ -777,17 +779,27 @@ Section Handlers.
               | Some fb =>
                   match py_nth (opn s) (Z.of_nat afeIndex - 1), afe_index fe (afe s), index_of fb (opn s) with
                   | Some common, Some bm0, Some fbi =>
-                      let fix inner (cnt : nat) (index : Z) (lastNode : nat) (bookmark : nat) (s : ps)
+                      (* the inner loop runs down to the formatting element; from its fourth step on, nodes leave the
+                         list (repaired in /repo: it used to stop after three steps).  [cnt] is fuel: the stack depth *)
+                      let fix inner (cnt : nat) (k : nat) (index : Z) (lastNode : nat) (bookmark : nat) (s : ps)
                           : ps * nat * nat :=
                           match cnt with
-                          | O => (s, lastNode, bookmark)
+                          | O => (crashed (S' "adoption agency: inner loop fuel") s, lastNode, bookmark)
                           | S cnt' =>
+                              let k := S k in
                               let index := (index - 1)%Z in
                               match py_nth (opn s) index with
                               | None => (crashed (S' "adoption agency: stack index out of range") s, lastNode, bookmark)
                               | Some node =>
-                                  if negb (afe_mem node (afe s)) then inner cnt' index lastNode bookmark (remove_open node s)
-                                  else if Nat.eqb node fe then (s, lastNode, bookmark)
+                                  if Nat.eqb node fe then (s, lastNode, bookmark) else
+                                  let '(s, bookmark) :=
+                                    if Nat.ltb 3 k && afe_mem node (afe s) then
+                                      (set_afe (remove_opt node (afe s)) s,
+                                       match afe_index node (afe s) with
+                                       | Some i => if Nat.ltb i bookmark then Nat.pred bookmark else bookmark
+                                       | None => bookmark end)
+                                    else (s, bookmark) in
+                                  if negb (afe_mem node (afe s)) then inner cnt' k index lastNode bookmark (remove_open node s)
                                   else
                                     let bookmark := if Nat.eqb lastNode fb
                                                     then match afe_index node (afe s) with Some i => S i | None => bookmark end
@@ -798,10 +810,10 @@ Section Handlers.
                                     let s := set_opn (replace_nat node clone (opn s)) s in
                                     let s := detach_if_parent lastNode s in
                                     let s := wd (fun dd => append_child dd clone lastNode) s in
-                                    inner cnt' index clone bookmark s
+                                    inner cnt' k index clone bookmark s
                               end
                           end in
-                      let '(s, lastNode, bookmark) := inner 3%nat (Z.of_nat fbi) fb bm0 s in
+                      let '(s, lastNode, bookmark) := inner (S (length (opn s))) 0%nat (Z.of_nat fbi) fb bm0 s in
                       let s := detach_if_parent lastNode s in
                       let s :=
                         if name_in (hname s common) ["table"; "tbody"; "tfoot"; "thead"; "tr"] then
@@ -818,6 +830,10 @@ Section Handlers.
                       let '(s, clone) := clone_node fe s in
                       let s := wd (fun dd => reparent_children dd fb clone) s in
                       let s := wd (fun dd => append_child dd fb clone) s in
+                      (* removing the formatting element shifts a bookmark that was moved behind it (repaired in /repo) *)
+                      let bookmark := match afe_index fe (afe s) with
+                                      | Some i => if Nat.ltb i bookmark then Nat.pred bookmark else bookmark
+                                      | None => bookmark end in
                       let s := set_afe (insert_at bookmark (Some clone) (remove_opt fe (afe s))) s in
                       let s := remove_open fe s in
                       let s := match index_of fb (opn s) with
@@ -1002,7 +1018,7 @@ Section Handlers.
     else if tag_is n ["applet"; "marquee"; "object"] then
       let s := if in_scope_str n VDefault s then gen_implied None s else s in
       if in_scope_str n VDefault s then R (clear_afe (pop_until_name n s)) else R s
-    else if tag_is n ["br"] then R (pop (insert_element (S' "br") [] (reconstruct s)))
+    else if tag_is n ["br"] then R (set_fsok false (pop (insert_element (S' "br") [] (reconstruct s))))   (* frameset-ok: repaired in /repo *)
     else R (end_tag_other n s).
 
   Definition h_in_body (t : ttok) (s : ps) : ps * option ttok :=
@@ -1016,7 +1032,11 @@ Section Handlers.
     end.
 
   (* ---------------- inTable & friends ---------------- *)
+  (* InTablePhase.currentNodeTakesTableText (repaired in /repo: the test was missing) *)
+  Definition takes_table_text (s : ps) : bool :=
+    opt_str_eqb (ens (d s) (top_or s)) (htmlns s) && name_in (ename (d s) (top_or s)) ["table"; "tbody"; "tfoot"; "thead"; "tr"].
   Definition table_chars (t : ttok) (s : ps) : ps :=
+    if negb (takes_table_text s) then set_ftab (ftab s) (call inBodyP t (set_ftab true s)) else
     let s := set_tt (ph s) (ttchars s) (set_ph inTableTextP s) in
     match t with
     | KChars x => if str_eqb x [0] then s else set_tt (ttorig s) (ttchars s ++ [x]) s
@@ -1030,7 +1050,9 @@ Section Handlers.
     set_tt (ttorig s) [] s.
 
   Definition clear_to_table (s : ps) : ps := pop_while_not_html ["table"; "html"] s.
-  Definition table_voodoo (t : ttok) (s : ps) : ps := set_ftab false (call inBodyP t (set_ftab true s)).
+  (* the previous value of insertFromTable is restored and the handler's result is returned (both repaired in /repo) *)
+  Definition table_voodoo (t : ttok) (s : ps) : ps * option ttok :=
+    let r := rec inBodyP t (set_ftab true s) in (set_ftab (ftab s) (fst r), snd r).
   Definition end_tag_table (s : ps) : ps :=
     if in_scope "table" VTable s then
       reset_insertion_mode (pop (pop_while_not ["table"] (gen_implied None s)))
@@ -1056,27 +1078,26 @@ Section Handlers.
         else if tag_is n ["style"; "script"] then rec inHeadP t s
         else if tag_is n ["input"] then
           match lower_attr "type" a with
-          | Some v => if str_eqb v (S' "hidden") then R (pop (insert_element n a s)) else R (table_voodoo t s)
-          | None => R (table_voodoo t s)
+          | Some v => if str_eqb v (S' "hidden") then R (pop (insert_element n a s)) else table_voodoo t s
+          | None => table_voodoo t s
           end
         else if tag_is n ["form"] then
           match formp s with
           | None => let s := insert_element n a s in R (pop (set_formp (top s) s))
           | Some _ => R s
           end
-        else R (table_voodoo t s)
+        else table_voodoo t s
     | KEnd n =>
         if tag_is n ["table"] then R (end_tag_table s)
         else if tag_is n ["body"; "caption"; "col"; "colgroup"; "html"; "tbody"; "td"; "tfoot"; "th"; "thead"; "tr"] then R s
-        else R (table_voodoo t s)
+        else table_voodoo t s
     end.
 
   Definition h_in_table_text (t : ttok) (s : ps) : ps * option ttok :=
     match t with
     | KChars x => if str_eqb x [0] then R s else R (set_tt (ttorig s) (ttchars s ++ [x]) s)
     | KSpace x => R (set_tt (ttorig s) (ttchars s ++ [x]) s)
-    | KDoctype' _ _ _ _ => R s
-    | _ => let s := flush_characters s in RT t (set_ph (ttorig s) s)
+    | _ => let s := flush_characters s in RT t (set_ph (ttorig s) s)      (* a doctype too (repaired in /repo) *)
     end.
 
   Definition ignore_end_caption (s : ps) : bool := negb (in_scope "caption" VTable s).
@@ -1105,6 +1126,10 @@ Section Handlers.
         else rec inBodyP t s
     end.
 
+  (* Phase.processCharactersKeepSpaces (repaired in /repo: the whole token used to be ignored): where a character
+     token is ignored, its whitespace still goes to the phase's processSpaceCharacters *)
+  Definition keep_spaces (x : str) (k : str -> ps -> ps * option ttok) (s : ps) : ps * option ttok :=
+    match filter is_space x with [] => R s | w => k w s end.
   Definition ignore_end_colgroup (s : ps) : bool := cur_is s "html".
   Definition end_tag_colgroup (s : ps) : ps :=
     if ignore_end_colgroup s then assert_inner "InColumnGroup.endTagColgroup: assert self.parser.innerHTML" s
@@ -1115,7 +1140,7 @@ Section Handlers.
       let s := end_tag_colgroup s in
       if ign then R s else RT t s in
     match t with
-    | KChars _ => act
+    | KChars x => if ignore_end_colgroup s then keep_spaces x (fun w s => R (insert_text_tree w s)) (end_tag_colgroup s) else act
     | KSpace x => R (insert_text_tree x s)
     | KComment' c => R (insert_comment_top c s)
     | KDoctype' _ _ _ _ => R s
@@ -1335,7 +1360,7 @@ Section Handlers.
     end.
   Definition h_in_frameset (t : ttok) (s : ps) : ps * option ttok :=
     match t with
-    | KChars _ => R s
+    | KChars x => keep_spaces x (fun w s => R (insert_text_tree w s)) s
     | KSpace x => R (insert_text_tree x s)
     | KComment' c => R (insert_comment_top c s)
     | KDoctype' _ _ _ _ => R s
@@ -1356,7 +1381,7 @@ Section Handlers.
     end.
   Definition h_after_frameset (t : ttok) (s : ps) : ps * option ttok :=
     match t with
-    | KChars _ => R s
+    | KChars x => keep_spaces x (fun w s => R (insert_text_tree w s)) s
     | KSpace x => R (insert_text_tree x s)
     | KComment' c => R (insert_comment_top c s)
     | KDoctype' _ _ _ _ => R s
@@ -1379,7 +1404,7 @@ Section Handlers.
     match t with
     | KComment' c => R (insert_comment c doc_id s)
     | KSpace _ => rec inBodyP t s
-    | KChars _ => R s
+    | KChars x => keep_spaces x (fun w s => rec inBodyP (KSpace w) s) s
     | KDoctype' _ _ _ _ => R s
     | KStart n a sc =>
         if tag_is n ["html"] then rec inBodyP t s
